@@ -40,7 +40,7 @@ def rank (x : Conn) : Nat :=
 /-- what a drain step leaves alone -/
 structure Frame (s s' : State) (c : ConnId) : Prop where
   lock : s'.lock = s.lock
-  shut : s'.shut = s.shut
+  shut : s'.shuts = s.shuts
   ids : s'.ids = s.ids
   others : ∀ d, d ≠ c → s'.conns d = s.conns d
   gone : (s'.conns c).clientGone = true
@@ -119,7 +119,7 @@ theorem rank_zero_of_uncounted {x : Conn} (h : counted x.pc = false) : rank x = 
   cases hp : x.pc <;> simp_all [counted]
 
 /-- iterate `drain_step` -/
-theorem drain_gone {s : State} {c : ConnId} (hr : Reachable s) (hlk : s.lock = .shutdown)
+theorem drain_gone {s : State} {c : ConnId} {k : CallId} (hr : Reachable s) (hlk : s.lock = .shutdown k)
     (hg : (s.conns c).clientGone = true) :
     ∃ as s', run s as = some s' ∧ counted (s'.conns c).pc = false ∧ Frame s s' c := by
   generalize hn : rank (s.conns c) = n
@@ -140,10 +140,10 @@ theorem drain_gone {s : State} {c : ConnId} (hr : Reachable s) (hlk : s.lock = .
 
 
 /-- a counted connection can always be driven to its decrement while Shutdown holds the mutex -/
-theorem drain_conn {s : State} {c : ConnId} (hr : Reachable s) (hlk : s.lock = .shutdown)
+theorem drain_conn {s : State} {c : ConnId} {k : CallId} (hr : Reachable s) (hlk : s.lock = .shutdown k)
     (hc : counted (s.conns c).pc = true) :
-    ∃ as s', run s as = some s' ∧ counted (s'.conns c).pc = false ∧ s'.lock = .shutdown ∧
-      s'.shut = s.shut ∧ s'.ids = s.ids ∧ ∀ d, d ≠ c → s'.conns d = s.conns d := by
+    ∃ as s', run s as = some s' ∧ counted (s'.conns c).pc = false ∧ s'.lock = .shutdown k ∧
+      s'.shuts = s.shuts ∧ s'.ids = s.ids ∧ ∀ d, d ≠ c → s'.conns d = s.conns d := by
   have hi := inv_reachable hr
   have hcid : c ∈ s.ids := mem_ids_of_pc hi (by intro h; rw [h] at hc; simp [counted] at hc)
   have hs1 : step s (.gone c) = some (setConn s c { s.conns c with clientGone := true }) := by
@@ -168,9 +168,9 @@ theorem cnt_exists_of_pos {f : ConnId → Conn} {l : List ConnId} (h : 0 < cnt f
       obtain ⟨c, hc, hcc⟩ := ih (by simpa using h)
       exact ⟨c, by simp [hc], hcc⟩
 
-theorem wait_can_end_aux : ∀ (n : Nat) (s : State), Reachable s →
-    (s.shut = .polling ∨ s.shut = .selecting) → cnt s.conns s.ids = n →
-    ∃ as s', run s as = some s' ∧ s'.shut = .retNil := by
+theorem wait_can_end_aux (k : CallId) : ∀ (n : Nat) (s : State), Reachable s →
+    ((s.shuts k).pc = .polling ∨ (s.shuts k).pc = .selecting) → cnt s.conns s.ids = n →
+    ∃ as s', run s as = some s' ∧ (s'.shuts k).pc = .retNil := by
   intro n
   induction n with
   | zero =>
@@ -178,13 +178,17 @@ theorem wait_can_end_aux : ∀ (n : Nat) (s : State), Reachable s →
     have hi := inv_reachable hr
     have h0 : s.counter = 0 := by rw [hi.counter]; exact hn
     rcases hs with hs | hs
-    · exact ⟨[.shutPoll], { s with shut := .retNil }, by simp [run, step, hs, h0], rfl⟩
-    · exact ⟨[.shutTimer, .shutPoll], { s with shut := .retNil }, by simp [run, step, hs, h0], rfl⟩
+    · exact ⟨[.shutPoll k], setShut s k { s.shuts k with pc := .retNil }, by simp [run, step, hs, h0],
+        by simp [setShut]⟩
+    · exact ⟨[.shutTimer k, .shutPoll k],
+        setShut (setShut s k { s.shuts k with pc := .polling }) k
+          { (setShut s k { s.shuts k with pc := .polling }).shuts k with pc := .retNil },
+        by simp [run, step, hs, h0, setShut], by simp [setShut]⟩
   | succ n ih =>
     intro s hr hs hn
     have hi := inv_reachable hr
     obtain ⟨c, hcid, hcc⟩ := cnt_exists_of_pos (f := s.conns) (l := s.ids) (by omega)
-    have hlk : s.lock = .shutdown := hi.lockShut.mpr (by rcases hs with h | h <;> simp [h, shutHolds])
+    have hlk : s.lock = .shutdown k := (hi.lockShut k).mpr (by rcases hs with h | h <;> simp [h, shutHolds])
     obtain ⟨as, s1, hrun, hun, _, hsh, hids, hoth⟩ := drain_conn hr hlk hcc
     have hr1 := reachable_run hr hrun
     have hcnt : cnt s1.conns s1.ids = n := by
